@@ -103,6 +103,8 @@ pub struct Ctx {
     pub violations: Vec<(String, String)>,
     pub inconclusive: Vec<String>,
     pub level: &'static str,
+    /// how many violations get a replay file and a VIOLATION line (the rest are only counted)
+    pub max_replays: usize,
 }
 
 pub fn hash_str(s: &str) -> u64 {
@@ -143,6 +145,7 @@ impl Ctx {
             violations: vec![],
             inconclusive: vec![],
             level: "exploration",
+            max_replays: 5,
         }
     }
 
@@ -183,7 +186,7 @@ impl Ctx {
             }
         }
         // new violation: write replay file (first few only)
-        if self.violations.len() < 5 {
+        if self.violations.len() < self.max_replays {
             let dir = format!("{}/replays/{}", out_dir(), self.property);
             let _ = std::fs::create_dir_all(&dir);
             let mut payload = f.replay.clone();
